@@ -745,6 +745,7 @@ fn references(versions: &[Option<Vec<Arc<str>>>], positions: &[Vec<Arc<str>>], m
 }
 
 fn one_run(plan: RunPlan, mut rng: Rng, attempt: u64, deadline: Duration, max_q: usize, nmenu: usize) -> RunStats {
+    let heavy_plan = plan.nf > 2000;
     let versions = versions_of(&plan);
     let mids = mids_of(&plan);
     let menu = gen_menu(&mut rng, plan.nf, nmenu);
@@ -826,7 +827,10 @@ fn one_run(plan: RunPlan, mut rng: Rng, attempt: u64, deadline: Duration, max_q:
         }
         for r in 1..=n {
             let q = sh.query_since_ms[r].load(SeqCst);
-            if q != 0 && now.saturating_sub(q) > 2 * deadline.as_millis() as u64 {
+            // (a query is allowed twice the deadline; ten times in a heavy run, whose cold workspace-wide searches take
+            // seconds on an idle machine and minutes on a loaded one - a query that never returns is still noticed)
+            let allowed = if heavy_plan { 10 } else { 2 } * deadline.as_millis() as u64;
+            if q != 0 && now.saturating_sub(q) > allowed {
                 blocked = Some(json!({"what": "query hung", "waited_ms": now.saturating_sub(q), "reader": r}));
             }
         }
